@@ -12,16 +12,21 @@ Do(op, a, As, got) ==
   /\ last' = [op |-> op, a |-> a, args |-> As, vm |-> vm, pre |-> s, post |-> r.post, ret |-> r.ret,
               excs |-> r.excs, kf15 |-> (IsXor(op) /\ KF15Guard(s, vm, As[1]))]
   /\ UNCHANGED vm
-One(op)  == \E x \in ItemArgs \cup {2} : Do(op, <<x, 0>>, <<>>, None)
+One(op)  == \E x \in ItemArgs \cup {2, Unhashable} : Do(op, <<x, 0>>, <<>>, None)
+\* argument sets: every subset of the item pool, and the malformed operands (alone, after a removable / a new item)
+BadArgs == {{NotIterable}, {Unhashable}, {1, Unhashable}, {4, Unhashable}, {RaisingIter}, {1, RaisingIter}, {4, 99, RaisingIter}}
+ArgSets == (SUBSET ArgItems) \cup BadArgs
 Pop      == IF s = {} THEN Do("pop", <<0, 0>>, <<>>, None) ELSE \E g \in s : Do("pop", <<0, 0>>, <<>>, g)
 Clear    == Do("clear", <<0, 0>>, <<>>, None)
 Multi(op) == \/ Do(op, <<0, 0>>, <<>>, None)
-             \/ \E A \in SUBSET ArgItems : Do(op, <<0, 0>>, <<A>>, None)
-             \/ \E A \in SUBSET ArgItems, B \in SUBSET ArgItems : Do(op, <<0, 0>>, <<A, B>>, None)
-Single(op) == \E A \in SUBSET ArgItems, form \in {0, 1, 2} :
-                 (form < 2 \/ op \in InplaceOps) /\ Do(op, <<form, 0>>, <<A>>, None)
+             \/ \E A \in ArgSets : Do(op, <<0, 0>>, <<A>>, None)
+             \/ \E A \in ArgSets, B \in ArgSets : Do(op, <<0, 0>>, <<A, B>>, None)
+Single(op) == \E A \in ArgSets, form \in {0, 1, 2} :
+                 /\ (form < 2 \/ op \in InplaceOps)
+                 /\ (A \in BadArgs => op \notin InplaceOps /\ form = 1)       \* a set operand cannot be malformed
+                 /\ Do(op, <<form, 0>>, <<A>>, None)
 Construct == s = {} /\ \E A \in SUBSET ArgItems : Do("construct", <<0, 0>>, <<A>>, None)
-CopyAdd  == \E k \in {0, 1, 2}, x \in {3, 11, 99} : Do("copyadd", <<k, x>>, <<>>, None)
+CopyAdd  == \E k \in 0..6, x \in {3, 11, 99} : Do("copyadd", <<k, x>>, <<>>, None)
 Next == last.op = "init" /\
         (One("add") \/ One("discard") \/ One("remove") \/ Pop \/ Clear
          \/ Multi("update") \/ Multi("difference_update") \/ Multi("intersection_update")
